@@ -1,4 +1,5 @@
 import BeffVerif.Props.C05
+import BeffVerif.Props.C05Flat
 open BeffVerif.C05
 #print axioms litInter_has
 #print axioms litUnion_has
@@ -9,3 +10,8 @@ open BeffVerif.C05
 #print axioms isSubtype_def
 #print axioms object_union_on_the_left_is_unsound
 #print axioms BeffVerif.C05.index_union_on_the_right_is_unsound
+#print axioms BeffVerif.C05Flat.flat_object_subtype_iff_inclusion
+#print axioms BeffVerif.C05Flat.check_one
+#print axioms BeffVerif.C05Flat.covered_iff
+#print axioms BeffVerif.C05Flat.diff_atoms
+#print axioms BeffVerif.C05Flat.intersect_first
